@@ -2,7 +2,8 @@ SPECIFICATION Spec
 CONSTANTS
   ParentGasLimits = {1000000, 1000700, 2000000, 40000000}
   SlotDistances = {1, 3}
-  RichTx = TRUE
-  PairBodies = TRUE
+  Factored = FALSE
+  RichTx = FALSE
+  PairBodies = FALSE
 INVARIANTS CatalogueOK
 CHECK_DEADLOCK FALSE
